@@ -30,6 +30,24 @@ notes={
  'C17-D':'+ PEGI now interprets a committed reference copy of the grammar (the seed edits jsonpath.peg and the generated parser consistently)',
  'C18-D':'+ keys with both a non-ASCII character and a symbol',
  'C19-C':'+ tagger closures share one code pointer (//go:noinline constructor)',
+ 'C02-E':'+ chains of multi-name selectors in the deep-nesting family (exponential walk), caught by the hang detector',
+ 'C05-F':'+ wide objects and "rename a member in place between two calls" in C05 histories',
+ 'C07-E':'+ multi-name selectors with more names than the object has members (unsorted, repeated, absent names)',
+ 'C07-F':'+ re-entrant "fre" in the C07 templates (a function re-enters the parsed function mid-traversal)',
+ 'C08-F':'+ re-entrant "fre" in C08\'s retrievals',
+ 'C09-F':'+ parsed functions are reused across cases (first/latest document saved for the replay)',
+ 'C10-E':'+ function operands ($.xs.g1(), @.v.f2(), @.v.fnan()) in the C10 generator',
+ 'C10-F':'+ NaN through the operand function "fnan"',
+ 'C04-E':'+ arrays that are prefix views of another array\'s storage (spare capacity over live data)',
+ 'C04-F':'+ documents with non-JSON values (incl. []map[string]interface{}) in C04',
+ 'C11-E':'+ every slice evaluated twice on the same array around another retrieval; array compared with a snapshot',
+ 'C11-F':'+ TestC11_SharedSlice: one parsed slice shared by goroutines on arrays of different length (race build)',
+ 'C12-E':'+ a config-less call right after a failed accessor-mode Parse',
+ 'C12-F':'+ the order of SetAccessorMode / Set…Function varies with the case',
+ 'C17-E':'+ regular expressions at the edge of Go\'s syntax in the reduced grammar and the vocabulary',
+ 'C18-E':'+ every spelling parsed right after a rejected Parse (1 case in 6)',
+ 'C19-E':'+ one Config object per configuration reused across a history; Parse(path, cfgA, cfgB)',
+ 'C20-F':'+ opaque document roots; *interface{} (also nil), typed-nil containers',
  'C19-D':'+ "modify the Config in place, then Parse the same path again" compared with an equal freshly built Config',
 }
 rows=[]
